@@ -29,5 +29,6 @@ RULES = [
     ("C08.emptywalk", lambda c, r: lfht.rule_emptywalk(c, r, "C08.emptywalk")),
     ("C08.wqguard", lambda c, r: lfht.rule_wqguard(c, r, "C08.wqguard")),
     ("C08.bucketat", lambda c, r: lfht.rule_bucketat(c, r, "C08.bucketat")),
+    ("C08.partition", lambda c, r: c09.rule_partition(c, r, "C08.partition")),
 ]
 FLOORS = {}
